@@ -1,8 +1,12 @@
-(* C11 — lemmas about the REST model. *)
-From V Require Import Base.Common Base.C11_Http Gen.RestRoutes Gen.RestClient Model.C11_Rest Model.C11_Check.
+(* C11 — lemmas about the REST model (server side): routing over the generated table, the handlers against the
+   hand-written spec_expect, fail-closed, single document, authentication, soundness of the boolean monitor. *)
+From V Require Import Base.Common Base.C11_Http Gen.RestRoutes Gen.RestClient Model.C11_Rest Model.C11_Check Model.C11_Tables.
 Open Scope string_scope.
 Open Scope list_scope.
 
+(* ------------------------------------------------------------------------------------------ *)
+(* generated tables                                                                           *)
+(* ------------------------------------------------------------------------------------------ *)
 (* rest_route_ops, part 1: the generated routes() table compiles to the hand-written route_spec *)
 Lemma routes_compile : compile_rest rest_routes = route_spec.
 Proof. vm_compute. reflexivity. Qed.
@@ -12,3 +16,646 @@ Lemma chain_is : rest_handler_chain = ["basicAuthHandler"; "cors.New.Handler"; "
   /\ rest_strict_slash = true /\ rest_not_found = "notFoundHandler"
   /\ rest_registration = ["Methods"; "Path"; "Name"; "Handler"].
 Proof. repeat split; reflexivity. Qed.
+
+(* every sendResponse with an explicit error status is followed by a return, in every handler and parse helper *)
+Lemma error_sites_all_return :
+  forallb (fun f : string * list (string * string) * list string * list bool => forallb (fun b => b) (snd f)) rest_funcs = true.
+Proof. vm_compute. reflexivity. Qed.
+
+Lemma route_ops_all : forallb route_ops_okb rest_routes = true.
+Proof. vm_compute. reflexivity. Qed.
+
+Lemma route_ops_each r : In r rest_routes -> route_ops_okb r = true.
+Proof. intros H. exact (proj1 (forallb_forall _ _) route_ops_all r H). Qed.
+
+(* ------------------------------------------------------------------------------------------ *)
+(* small facts                                                                                *)
+(* ------------------------------------------------------------------------------------------ *)
+Lemma list_eqb_refl {A} (eqb : A -> A -> bool) : (forall x, eqb x x = true) -> forall l, list_eqb eqb l l = true.
+Proof. intros H l. induction l as [|x l IH]; cbn; [reflexivity | rewrite H, IH; reflexivity]. Qed.
+
+Lemma list_eqb_eq {A} (eqb : A -> A -> bool) : (forall x y, eqb x y = true -> x = y) ->
+  forall a b, list_eqb eqb a b = true -> a = b.
+Proof.
+  intros H a. induction a as [|x a IH]; intros [|y b] E; cbn in E; try discriminate; [reflexivity|].
+  apply andb_prop in E as [E1 E2]. rewrite (H _ _ E1), (IH _ E2). reflexivity.
+Qed.
+
+Lemma strs_eqb_refl l : list_eqb String.eqb l l = true.
+Proof. apply list_eqb_refl. apply String.eqb_refl. Qed.
+Lemma strs_eqb_eq a b : list_eqb String.eqb a b = true -> a = b.
+Proof. apply list_eqb_eq. intros x y. apply String.eqb_eq. Qed.
+
+Lemma rcall_eqb_refl c : rcall_eqb c c = true.
+Proof. destruct c as [[m a] f]. cbn. rewrite String.eqb_refl, strs_eqb_refl. destruct f; reflexivity. Qed.
+Lemma rcall_eqb_eq c d : rcall_eqb c d = true -> c = d.
+Proof.
+  destruct c as [[m a] f], d as [[m' a'] f']. cbn. intros E.
+  apply andb_prop in E as [E E3]. apply andb_prop in E as [E1 E2].
+  apply String.eqb_eq in E1. apply strs_eqb_eq in E2. apply Bool.eqb_prop in E3. subst. reflexivity.
+Qed.
+Lemma rcalls_eqb_refl l : list_eqb rcall_eqb l l = true.
+Proof. apply list_eqb_refl. apply rcall_eqb_refl. Qed.
+Lemma rcalls_eqb_eq a b : list_eqb rcall_eqb a b = true -> a = b.
+Proof. apply list_eqb_eq. apply rcall_eqb_eq. Qed.
+
+Lemma is_nil_true {A} (l : list A) : is_nil l = true <-> l = [].
+Proof. destruct l; cbn; split; intros H; try reflexivity; discriminate. Qed.
+
+Lemma is4xx_spec s : is4xx s = true <-> (400 <= s < 500)%N.
+Proof. unfold is4xx. rewrite andb_true_iff, N.leb_le, N.ltb_lt. tauto. Qed.
+
+(* the calls issued are the expected operations in order, each successful except possibly the last issued one *)
+Inductive performed : list rcall -> list (string * list string) -> Prop :=
+| Pf_nil exp : performed [] exp
+| Pf_fail m a exp : performed [(m, a, true)] ((m, a) :: exp)
+| Pf_ok m a obs exp : performed obs exp -> performed ((m, a, false) :: obs) ((m, a) :: exp).
+
+Lemma prefix_ops_performed obs : forall exp, prefix_ops obs exp = true <-> performed obs exp.
+Proof.
+  induction obs as [|[[m a] f] obs IH]; intros exp.
+  - split; [constructor | reflexivity].
+  - destruct exp as [|[m' a'] exp]; cbn [prefix_ops].
+    + split; [discriminate | intros H; inversion H].
+    + split.
+      * intros H. apply andb_prop in H as [H H3]. apply andb_prop in H as [H1 H2].
+        apply String.eqb_eq in H1. apply strs_eqb_eq in H2. subst m' a'.
+        destruct f.
+        -- apply is_nil_true in H3. subst obs. constructor.
+        -- constructor. apply IH. exact H3.
+      * intros H. inversion H; subst.
+        -- rewrite String.eqb_refl, strs_eqb_refl. reflexivity.
+        -- rewrite String.eqb_refl, strs_eqb_refl. cbn. apply IH. assumption.
+Qed.
+
+Lemma performed_complete obs : forall exp, performed obs exp -> any_failed obs = false ->
+  List.length obs = List.length exp -> obs = ok_calls exp.
+Proof.
+  induction obs as [|c obs IH]; intros exp H Hf Hl.
+  - destruct exp; [reflexivity | discriminate].
+  - inversion H; subst; cbn in Hf; try discriminate.
+    cbn in Hl. injection Hl as Hl. unfold ok_calls. cbn. f_equal. apply IH; assumption.
+Qed.
+
+(* ------------------------------------------------------------------------------------------ *)
+(* routing                                                                                    *)
+(* ------------------------------------------------------------------------------------------ *)
+Lemma resolve_in strict rs m segs : forall seen h v, resolve strict rs m segs seen = MFull h v ->
+  exists t, In (m, t, h) rs /\ path_match strict t segs = PExact v.
+Proof.
+  induction rs as [|[[rm t] h'] rs IH]; intros seen h v H; cbn [resolve] in H.
+  - destruct seen; discriminate.
+  - destruct (path_match strict t segs) as [|v'|] eqn:Ep.
+    + destruct (IH _ _ _ H) as (t0 & Hin & Hp). exists t0. split; [right; exact Hin | exact Hp].
+    + destruct (String.eqb m rm) eqn:Em.
+      * apply String.eqb_eq in Em. subst rm. inversion H; subst. exists t. split; [left; reflexivity | exact Ep].
+      * destruct (IH _ _ _ H) as (t0 & Hin & Hp). exists t0. split; [right; exact Hin | exact Hp].
+    + destruct (String.eqb m rm) eqn:Em; [discriminate|].
+      destruct (IH _ _ _ H) as (t0 & Hin & Hp). exists t0. split; [right; exact Hin | exact Hp].
+Qed.
+
+Lemma route_spec_entries m t h : In (m, t, h) route_spec -> h <> RUnknown /\ (m = "GET" \/ m = "POST" \/ m = "DELETE").
+Proof.
+  unfold route_spec. cbn [In]. intros H.
+  repeat (destruct H as [H|H]; [inversion H; subst; split; [discriminate | tauto]|]). contradiction.
+Qed.
+
+Lemma resolve_spec_known m segs seen h v : resolve true route_spec m segs seen = MFull h v ->
+  h <> RUnknown /\ m <> "HEAD".
+Proof.
+  intros H. apply resolve_in in H as (t & Hin & _). apply route_spec_entries in Hin as [Hk Hm].
+  split; [exact Hk|]. destruct Hm as [->|[->| ->]]; discriminate.
+Qed.
+
+(* a request that reaches a handler: it passed the authentication wrapper, is not a CORS pre-flight, its path is
+   canonical, and the router matched method and path (hand-written table) to h with the path variables vars *)
+Definition routed (rq : rreq) (e : renv) (h : rhandler) (vars : list (string * string)) : Prop :=
+  authorized e = true /\ rr_preflight rq = false /\ re_redirect e = false /\
+  resolve true route_spec (rr_meth rq) (segments (rr_path rq)) false = MFull h vars.
+
+Definition strip_head (m : string) (r : rres) : rres :=
+  if String.eqb m "HEAD"
+  then mk_rres (rs_calls r) (rs_status r) (match rs_ndocs r with Some _ => Some 0%N | None => None end) (rs_serr r)
+  else r.
+
+Lemma rest_run_unfold rq e : rest_run rq e = strip_head (rr_meth rq) (rest_run_with true route_spec rq e).
+Proof. unfold rest_run. rewrite routes_compile. reflexivity. Qed.
+
+Lemma rest_run_routed rq e h vars : routed rq e h vars -> rest_run rq e = handle h vars (rr_query rq) e.
+Proof.
+  intros (Ha & Hp & Hr & Hm). rewrite rest_run_unfold. unfold rest_run_with. rewrite Ha, Hp, Hr, Hm. cbn [negb].
+  unfold strip_head. apply resolve_spec_known in Hm as [_ Hh].
+  destruct (String.eqb (rr_meth rq) "HEAD") eqn:E; [apply String.eqb_eq in E; contradiction | reflexivity].
+Qed.
+
+Lemma strip_head_calls m r : rs_calls (strip_head m r) = rs_calls r.
+Proof. unfold strip_head. destruct (String.eqb m "HEAD"); reflexivity. Qed.
+Lemma strip_head_status m r : rs_status (strip_head m r) = rs_status r.
+Proof. unfold strip_head. destruct (String.eqb m "HEAD"); reflexivity. Qed.
+Lemma strip_head_serr m r : rs_serr (strip_head m r) = rs_serr r.
+Proof. unfold strip_head. destruct (String.eqb m "HEAD"); reflexivity. Qed.
+
+(* whenever anything was called, the request was routed *)
+Lemma rest_run_calls_routed rq e : rs_calls (rest_run rq e) <> [] ->
+  exists h vars, routed rq e h vars.
+Proof.
+  rewrite rest_run_unfold, strip_head_calls. unfold rest_run_with, routed.
+  destruct (authorized e); cbn [negb]; [|intros H; exfalso; apply H; reflexivity].
+  destruct (rr_preflight rq); [intros H; exfalso; apply H; reflexivity|].
+  destruct (re_redirect e); [intros H; exfalso; apply H; reflexivity|].
+  destruct (resolve true route_spec (rr_meth rq) (segments (rr_path rq)) false) as [h vars| | |];
+    try (intros H; exfalso; apply H; reflexivity).
+  intros _. exists h, vars. repeat split; reflexivity.
+Qed.
+
+(* ------------------------------------------------------------------------------------------ *)
+(* handlers against the hand-written spec                                                     *)
+(* ------------------------------------------------------------------------------------------ *)
+Ltac break_match :=
+  repeat match goal with
+  | |- context[match ?x with _ => _ end] =>
+      lazymatch x with
+      | context[match _ with _ => _ end] => fail
+      | _ => destruct x eqn:?
+      end
+  end.
+
+Ltac break_match_hyp H :=
+  repeat match type of H with
+  | context[match ?x with _ => _ end] =>
+      lazymatch x with
+      | context[match _ with _ => _ end] => fail
+      | _ => destruct x eqn:?
+      end
+  end.
+
+Definition urlpath_of (vars : list (string * string)) : string :=
+  ("/" ++ var "keyType" vars ++ "/" ++ trim_slash (var "path" vars))%string.
+
+(* what "a part the handler must decode is malformed" means, per handler class (hand-written):
+   the CID / IPFS path / peer ID in the path, the pin options or add parameters in the query, the filter, the body *)
+Definition malformed (h : rhandler) (vars : list (string * string)) (e : renv) : Prop :=
+  match h with
+  | RAllocation | RRecover | RStatus | RPin | RUnpin => look (var "hash" vars) (re_cids e) = None \/ re_popts e = None
+  | RPinPath | RUnpinPath => look (urlpath_of vars) (re_paths e) = None \/ re_popts e = None
+  | RPeerRemove => look (var "peer" vars) (re_peers e) = None
+  | RPeerAdd => forall p, re_body e <> PidOk p
+  | RAdd => re_mp e = 0%N \/ re_addp e = None
+  | RAllocations => re_pfilter_ok e = false
+  | RStatusAll => re_tfilter e = None
+  | RUnknown => True
+  | _ => False
+  end.
+
+Lemma refuse_iff_malformed h vars q e : spec_expect h vars q e = Refuse <-> malformed h vars e.
+Proof.
+  destruct h; cbn [spec_expect malformed]; unfold urlpath_of;
+    try (split; [discriminate | intros []]; fail);
+    try (match goal with |- context[look ?a ?b] => destruct (look a b) end; destruct (re_popts e); split; intros H;
+         try discriminate; try reflexivity; try (destruct H; discriminate); auto; fail).
+  - (* PeerAdd *) destruct (re_body e); split; intros H; try reflexivity; try discriminate; try (intros p; discriminate).
+    exfalso. apply (H p). reflexivity.
+  - (* Add *) destruct (N.eqb (re_mp e) 0) eqn:E.
+    + apply N.eqb_eq in E. split; [intros _; left; exact E | reflexivity].
+    + apply N.eqb_neq in E. destruct (re_addp e) as [[o st]|]; split; intros H; try discriminate; try reflexivity.
+      * destruct H; [contradiction | discriminate].
+      * right; reflexivity.
+  - (* Allocations *) destruct (re_pfilter_ok e); split; intros H; try discriminate; reflexivity.
+  - (* StatusAll *) destruct (re_tfilter e); split; intros H; try discriminate; reflexivity.
+  - (* Unknown *) split; [intros _; exact I | reflexivity].
+Qed.
+
+(* a malformed part: answered 400 with one JSON document, nothing called *)
+Lemma handle_refuse h vars q e : h <> RUnknown -> spec_expect h vars q e = Refuse -> handle h vars q e = bad400.
+Proof.
+  intros Hh.
+  destruct h; try congruence; cbn [handle spec_expect]; unfold with_cid, with_path, h_add;
+    intros H; break_match_hyp H; try discriminate; try reflexivity.
+Qed.
+
+Definition errb (r : rres) : bool := (400 <=? rs_status r)%N || rs_serr r.
+Definition imp_failed (h : rhandler) (e : renv) : bool :=
+  match h with RAdd => negb (N.eqb (re_mp e) 1) || negb (re_imp_ok e) | _ => false end.
+Definition is_stream (h : rhandler) (e : renv) : bool :=
+  match h, re_addp e with RAdd, Some (_, true) => true | _, _ => false end.
+
+(* all that is claimed of a handler whose input decodes, in boolean form (decided by case analysis below) *)
+Definition ops_okb (h : rhandler) (e : renv) (exp : list (string * list string)) (r : rres) : bool :=
+  prefix_ops (rs_calls r) exp
+  && (if errb r then any_failed (rs_calls r) || (imp_failed h e && is_nil (rs_calls r))
+      else list_eqb rcall_eqb (rs_calls r) (ok_calls exp))
+  && (if any_failed (rs_calls r) then errb r else true)
+  && (if rs_serr r then is_stream h e && N.eqb (rs_status r) 200 else true)
+  && (if is4xx (rs_status r) then any_failed (rs_calls r) else true)
+  && match rs_ndocs r with
+     | Some 1%N => negb (N.eqb (rs_status r) 204)
+     | Some 0%N => N.eqb (rs_status r) 204
+     | Some _ => false
+     | None => is_stream h e && N.eqb (rs_status r) 200
+     end
+  && (if is_stream h e then true else match rs_ndocs r with None => false | _ => true end).
+
+Ltac refl_eqb := rewrite ?rcalls_eqb_refl, ?rcall_eqb_refl, ?strs_eqb_refl, ?String.eqb_refl, ?N.eqb_refl; cbn.
+
+(* one RPC followed by sendResponse *)
+Lemma rpc1_ops_ok h e m args st nd nf any :
+  imp_failed h e = false -> is_stream h e = false -> ((st = 200 /\ nd = 1) \/ (st = 204 /\ nd = 0))%N ->
+  ops_okb h e [(m, args)] (rpc1 e m args st nd nf any) = true.
+Proof.
+  intros Hi Hs Hst. unfold ops_okb, rpc1, res, errb. rewrite Hi, Hs.
+  destruct (fail_kind e m 0) as [k|]; cbn [rs_calls rs_status rs_ndocs rs_serr prefix_ops any_failed existsb snd is_nil ok_calls map fst list_eqb rcall_eqb];
+    rewrite ?String.eqb_refl, ?strs_eqb_refl; cbn [andb orb Bool.eqb].
+  - destruct (any || nf && (k =? 1)%N); reflexivity.
+  - destruct Hst as [[-> ->]|[-> ->]]; reflexivity.
+Qed.
+
+Lemma add_ops_ok e o st : re_addp e = Some (o, st) -> N.eqb (re_mp e) 0 = false ->
+  ops_okb RAdd e [("Cluster.BlockAllocate", []); ("IPFSConnector.BlockPut", []); ("Cluster.Pin", [re_root e; o; "-1"])] (h_add e) = true.
+Proof.
+  intros Ha Hm. unfold h_add, add_err. rewrite Ha, Hm.
+  unfold ops_okb, errb, imp_failed, is_stream. rewrite Ha.
+  generalize "Cluster.BlockAllocate" "IPFSConnector.BlockPut" "Cluster.Pin" "-1". intros ba bp pn m1.
+  destruct (N.eqb (re_mp e) 1); destruct (re_imp_ok e); destruct st;
+    cbn [negb orb andb rs_calls rs_status rs_ndocs rs_serr prefix_ops any_failed existsb snd is_nil]; try reflexivity;
+    destruct (fail_kind e ba 0); cbn [rs_calls rs_status rs_ndocs rs_serr prefix_ops any_failed existsb snd is_nil];
+    rewrite ?String.eqb_refl; try reflexivity;
+    destruct (fail_any e bp); cbn [app rs_calls rs_status rs_ndocs rs_serr prefix_ops any_failed existsb snd is_nil list_eqb];
+    rewrite ?String.eqb_refl; try reflexivity;
+    destruct (fail_kind e pn 0); cbn [app rs_calls rs_status rs_ndocs rs_serr prefix_ops any_failed existsb snd is_nil list_eqb ok_calls map fst rcall_eqb];
+    rewrite ?String.eqb_refl; try reflexivity.
+Qed.
+
+Lemma handle_ops_b h vars q e exp : spec_expect h vars q e = Ops exp -> ops_okb h e exp (handle h vars q e) = true.
+Proof.
+  destruct h; cbn [handle spec_expect]; unfold with_cid, with_path, rpc_plain, urlpath_of;
+    intros H; break_match_hyp H; try discriminate; inversion H; subst; clear H;
+    try (apply rpc1_ops_ok; [reflexivity | reflexivity | (left; split; reflexivity) || (right; split; reflexivity)]; fail).
+  - (* Add *) eapply add_ops_ok; eassumption.
+Qed.
+
+(* Prop-level reading *)
+Record ops_ok (h : rhandler) (e : renv) (exp : list (string * list string)) (r : rres) : Prop := {
+  oo_performed : performed (rs_calls r) exp;
+  oo_success : errb r = false -> rs_calls r = ok_calls exp;
+  oo_error : errb r = true -> any_failed (rs_calls r) = true \/ (imp_failed h e = true /\ rs_calls r = []);
+  oo_failed : any_failed (rs_calls r) = true -> errb r = true;
+  oo_4xx : is4xx (rs_status r) = true -> any_failed (rs_calls r) = true;
+  oo_serr : rs_serr r = true -> is_stream h e = true /\ rs_status r = 200%N;
+  oo_docs : rs_ndocs r = Some 1%N \/ (rs_ndocs r = Some 0%N /\ rs_status r = 204%N)
+            \/ (rs_ndocs r = None /\ is_stream h e = true /\ rs_status r = 200%N)
+}.
+
+Lemma ops_okb_sound h e exp r : ops_okb h e exp r = true -> ops_ok h e exp r.
+Proof.
+  unfold ops_okb. intros H.
+  apply andb_prop in H as [H H7]. apply andb_prop in H as [H H6]. apply andb_prop in H as [H H5].
+  apply andb_prop in H as [H H4]. apply andb_prop in H as [H H3]. apply andb_prop in H as [H1 H2].
+  constructor.
+  - apply prefix_ops_performed. exact H1.
+  - intros E. rewrite E in H2. apply rcalls_eqb_eq. exact H2.
+  - intros E. rewrite E in H2. apply orb_prop in H2 as [H2|H2]; [left; exact H2|].
+    apply andb_prop in H2 as [Ha Hb]. right. split; [exact Ha | apply is_nil_true; exact Hb].
+  - intros E. rewrite E in H3. exact H3.
+  - intros E. rewrite E in H5. exact H5.
+  - intros E. rewrite E in H4. apply andb_prop in H4 as [Ha Hb]. apply N.eqb_eq in Hb. split; assumption.
+  - destruct (rs_ndocs r) as [[|p]|].
+    + right; left. split; [reflexivity | apply N.eqb_eq; exact H6].
+    + destruct p; try discriminate. left; reflexivity.
+    + right; right. apply andb_prop in H6 as [Ha Hb]. apply N.eqb_eq in Hb. repeat split; assumption.
+Qed.
+
+Lemma handle_ops h vars q e exp : spec_expect h vars q e = Ops exp -> ops_ok h e exp (handle h vars q e).
+Proof. intros H. apply ops_okb_sound. apply handle_ops_b with (vars := vars) (q := q). exact H. Qed.
+
+Lemma performed_names obs : forall exp c, performed obs exp -> In c obs -> In (fst (fst c)) (map fst exp).
+Proof.
+  induction obs as [|x obs IH]; intros exp c H Hin; [contradiction|].
+  inversion H; subst.
+  - destruct Hin as [<-|[]]. left; reflexivity.
+  - destruct Hin as [<-|Hin]; [left; reflexivity|]. right. eapply IH; eassumption.
+Qed.
+
+Lemma spec_expect_names h vars q e exp : spec_expect h vars q e = Ops exp -> incl (map fst exp) (handler_rpc_names h).
+Proof.
+  destruct h; cbn [spec_expect handler_rpc_names]; intros H; break_match_hyp H; try discriminate; inversion H; subst; clear H;
+    cbn [map fst]; intros x Hx; cbn [In] in *; tauto.
+Qed.
+
+Lemma handle_call_names h vars q e c : h <> RUnknown -> In c (rs_calls (handle h vars q e)) -> In (fst (fst c)) (handler_rpc_names h).
+Proof.
+  intros Hh Hin. destruct (spec_expect h vars q e) as [|exp] eqn:E.
+  - rewrite (handle_refuse h vars q e Hh E) in Hin. contradiction.
+  - apply (spec_expect_names _ _ _ _ _ E). eapply performed_names; [|exact Hin]. apply (oo_performed _ _ _ _ (handle_ops _ _ _ _ _ E)).
+Qed.
+
+Lemma route_model_all : forallb route_model_okb rest_routes = true.
+Proof. vm_compute. reflexivity. Qed.
+
+Lemma route_ops_model name m pat hn : In (name, m, pat, hn) rest_routes ->
+  exists sites, sget name named_ops = Some sites /\ func_rpcs hn = Some sites /\
+    forall vars q e c, In c (rs_calls (handle (rhandler_of_name hn) vars q e)) -> In (fst (fst c)) (flat_map model_names sites).
+Proof.
+  intros Hin.
+  pose proof (route_ops_each _ Hin) as H1. pose proof (proj1 (forallb_forall _ _) route_model_all _ Hin) as H2.
+  unfold route_ops_okb in H1. unfold route_model_okb in H2.
+  destruct (sget name named_ops) as [sites|]; [|discriminate].
+  destruct (func_rpcs hn) as [got|]; [|discriminate].
+  apply strs_eqb_eq in H1. subst got. apply andb_prop in H2 as [H2 H3]. apply strs_eqb_eq in H2.
+  exists sites. repeat split. intros vars q e c Hc. rewrite H2. apply handle_call_names with (vars := vars) (q := q) (e := e); [|exact Hc].
+  intros Hu. rewrite Hu in H3. discriminate.
+Qed.
+
+(* ------------------------------------------------------------------------------------------ *)
+(* whole requests: fail-closed and faithful                                                   *)
+(* ------------------------------------------------------------------------------------------ *)
+Lemma routed_known rq e h vars : routed rq e h vars -> h <> RUnknown.
+Proof. intros (_ & _ & _ & H). apply resolve_spec_known in H. tauto. Qed.
+
+Lemma fail_closed_l rq e h vars : routed rq e h vars -> malformed h vars e -> rest_run rq e = bad400.
+Proof.
+  intros Hr Hm. rewrite (rest_run_routed _ _ _ _ Hr). apply handle_refuse; [eapply routed_known; exact Hr|].
+  apply refuse_iff_malformed. exact Hm.
+Qed.
+
+Lemma wellformed_translated_l rq e h vars : routed rq e h vars -> ~ malformed h vars e ->
+  exists exp, spec_expect h vars (rr_query rq) e = Ops exp /\ ops_ok h e exp (rest_run rq e).
+Proof.
+  intros Hr Hm. rewrite (rest_run_routed _ _ _ _ Hr).
+  destruct (spec_expect h vars (rr_query rq) e) as [|exp] eqn:E.
+  - exfalso. apply Hm. apply (refuse_iff_malformed h vars (rr_query rq) e). exact E.
+  - exists exp. split; [reflexivity | apply handle_ops; exact E].
+Qed.
+
+Lemma calls_exact_l rq e : rs_calls (rest_run rq e) <> [] ->
+  exists h vars exp, routed rq e h vars /\ ~ malformed h vars e /\ spec_expect h vars (rr_query rq) e = Ops exp
+    /\ ops_ok h e exp (rest_run rq e).
+Proof.
+  intros Hc. destruct (rest_run_calls_routed rq e Hc) as (h & vars & Hr).
+  assert (Hm : ~ malformed h vars e).
+  { intros Hm. rewrite (fail_closed_l _ _ _ _ Hr Hm) in Hc. apply Hc. reflexivity. }
+  destruct (wellformed_translated_l _ _ _ _ Hr Hm) as (exp & He & Ho).
+  exists h, vars, exp. split; [exact Hr|]. split; [exact Hm|]. split; assumption.
+Qed.
+
+(* a 4xx answer and a call together: only when that call was refused by the cluster itself *)
+Lemma refused_no_call_l rq e : is4xx (rs_status (rest_run rq e)) = true -> any_failed (rs_calls (rest_run rq e)) = false ->
+  rs_calls (rest_run rq e) = [].
+Proof.
+  intros H4 Hf. destruct (rs_calls (rest_run rq e)) as [|c l] eqn:Ec; [reflexivity|]. exfalso.
+  assert (Hn : rs_calls (rest_run rq e) <> []) by (rewrite Ec; discriminate).
+  destruct (calls_exact_l rq e Hn) as (h & vars & exp & _ & _ & _ & Ho).
+  pose proof (oo_4xx _ _ _ _ Ho H4) as Hx. rewrite Ec in Hx. rewrite Hx in Hf. discriminate.
+Qed.
+
+(* ------------------------------------------------------------------------------------------ *)
+(* single JSON document                                                                       *)
+(* ------------------------------------------------------------------------------------------ *)
+Definition docs_spec (rq : rreq) (e : renv) (r : rres) : Prop :=
+  match rs_ndocs r with
+  | Some n => n = 1%N \/ (n = 0%N /\ (rr_meth rq = "HEAD" \/ rs_status r = 204%N \/ rs_status r = 405%N))
+  | None => (rs_status r = 301%N /\ rs_calls r = []) \/
+            (rs_status r = 200%N /\ exists vars o, routed rq e RAdd vars /\ re_addp e = Some (o, true))
+  end.
+
+Lemma is_stream_inv h e : is_stream h e = true -> h = RAdd /\ exists o, re_addp e = Some (o, true).
+Proof. unfold is_stream. destruct h; try discriminate. destruct (re_addp e) as [[o [|]]|]; try discriminate. intros _. split; [reflexivity | exists o; reflexivity]. Qed.
+
+Lemma single_document_l rq e : docs_spec rq e (rest_run rq e).
+Proof.
+  unfold docs_spec.
+  destruct (authorized e) eqn:Ha.
+  2:{ rewrite rest_run_unfold. unfold rest_run_with. rewrite Ha. cbn [negb]. unfold strip_head.
+      destruct (String.eqb (rr_meth rq) "HEAD") eqn:Eh; cbn; [right; split; [reflexivity | left; apply String.eqb_eq; exact Eh] | left; reflexivity]. }
+  destruct (rr_preflight rq) eqn:Hp.
+  { rewrite rest_run_unfold. unfold rest_run_with. rewrite Ha, Hp. cbn [negb]. unfold strip_head.
+    destruct (String.eqb (rr_meth rq) "HEAD"); cbn; right; (split; [reflexivity|]); right; left; reflexivity. }
+  destruct (re_redirect e) eqn:Hd.
+  { rewrite rest_run_unfold. unfold rest_run_with. rewrite Ha, Hp, Hd. cbn [negb]. unfold strip_head.
+    destruct (String.eqb (rr_meth rq) "HEAD"); cbn; left; split; reflexivity. }
+  destruct (resolve true route_spec (rr_meth rq) (segments (rr_path rq)) false) as [h vars| | |] eqn:Hm.
+  - (* routed *)
+    assert (Hr : routed rq e h vars) by (repeat split; assumption).
+    rewrite (rest_run_routed _ _ _ _ Hr).
+    destruct (spec_expect h vars (rr_query rq) e) as [|exp] eqn:E.
+    + rewrite (handle_refuse _ _ _ _ (routed_known _ _ _ _ Hr) E). cbn. left; reflexivity.
+    + pose proof (handle_ops _ _ _ _ _ E) as Ho. destruct (oo_docs _ _ _ _ Ho) as [H|[[H1 H2]|(H1 & H2 & H3)]].
+      * rewrite H. left; reflexivity.
+      * rewrite H1. right. split; [reflexivity | right; left; exact H2].
+      * rewrite H1. right. split; [exact H3|]. apply is_stream_inv in H2 as [-> [o Ho']]. exists vars, o. split; assumption.
+  - rewrite rest_run_unfold. unfold rest_run_with. rewrite Ha, Hp, Hd, Hm. cbn [negb]. unfold strip_head.
+    destruct (String.eqb (rr_meth rq) "HEAD"); cbn; left; split; reflexivity.
+  - rewrite rest_run_unfold. unfold rest_run_with. rewrite Ha, Hp, Hd, Hm. cbn [negb]. unfold strip_head.
+    destruct (String.eqb (rr_meth rq) "HEAD"); cbn; right; (split; [reflexivity|]); right; right; reflexivity.
+  - rewrite rest_run_unfold. unfold rest_run_with. rewrite Ha, Hp, Hd, Hm. cbn [negb]. unfold strip_head.
+    destruct (String.eqb (rr_meth rq) "HEAD") eqn:Eh; cbn; [right; split; [reflexivity | left; apply String.eqb_eq; exact Eh] | left; reflexivity].
+Qed.
+
+(* ------------------------------------------------------------------------------------------ *)
+(* authentication                                                                             *)
+(* ------------------------------------------------------------------------------------------ *)
+Definition listed_pair (e : renv) : Prop :=
+  match re_creds e with
+  | None => True
+  | Some l => exists u p, re_basic e = Some (u, p) /\ In (u, p) l
+  end.
+
+Lemma authorized_spec e : authorized e = true <-> listed_pair e.
+Proof.
+  unfold authorized, listed_pair. destruct (re_creds e) as [l|]; [|tauto].
+  destruct (re_basic e) as [[u p]|].
+  - rewrite existsb_exists. split.
+    + intros ([u' p'] & Hin & Heq). cbn in Heq. apply andb_prop in Heq as [E1 E2].
+      apply String.eqb_eq in E1. apply String.eqb_eq in E2. subst. exists u, p. split; [reflexivity | exact Hin].
+    + intros (u' & p' & Heq & Hin). inversion Heq; subst. exists (u', p'). split; [exact Hin|]. cbn. rewrite !String.eqb_refl. reflexivity.
+  - split; [discriminate | intros (u & p & H & _); discriminate].
+Qed.
+
+(* credentials configured, request without a listed pair: 401, nothing called, whatever the method, path, pre-flight
+   header, redirect outcome *)
+Lemma auth_total_l rq e : ~ listed_pair e ->
+  rs_calls (rest_run rq e) = [] /\ rs_status (rest_run rq e) = 401%N /\ rs_serr (rest_run rq e) = false
+  /\ (rs_ndocs (rest_run rq e) = Some 1%N \/ (rr_meth rq = "HEAD" /\ rs_ndocs (rest_run rq e) = Some 0%N)).
+Proof.
+  intros H. assert (Ha : authorized e = false).
+  { destruct (authorized e) eqn:E; [|reflexivity]. exfalso. apply H. apply authorized_spec. exact E. }
+  rewrite rest_run_unfold. unfold rest_run_with. rewrite Ha. cbn [negb]. unfold strip_head.
+  destruct (String.eqb (rr_meth rq) "HEAD") eqn:Eh; cbn; repeat split; try reflexivity.
+  - right. split; [apply String.eqb_eq; exact Eh | reflexivity].
+  - left. reflexivity.
+Qed.
+
+(* the wrapper is transparent for a request that carries a listed pair *)
+Definition open_env (e : renv) : renv :=
+  mk_renv None (re_basic e) (re_redirect e) (re_cids e) (re_peers e) (re_paths e) (re_popts e) (re_addp e) (re_tfilter e)
+          (re_pfilter_ok e) (re_body e) (re_mp e) (re_imp_ok e) (re_root e) (re_fails e).
+
+Lemma handle_open h vars q e : handle h vars q (open_env e) = handle h vars q e.
+Proof. destruct h; reflexivity. Qed.
+
+Lemma auth_transparent_l rq e : listed_pair e -> rest_run rq e = rest_run rq (open_env e).
+Proof.
+  intros H. apply authorized_spec in H. unfold rest_run, rest_run_with. rewrite H. cbn [negb authorized open_env re_creds re_redirect].
+  destruct (resolve rest_strict_slash (compile_rest rest_routes) (rr_meth rq) (segments (rr_path rq)) false); try reflexivity; rewrite handle_open; reflexivity.
+Qed.
+
+(* ------------------------------------------------------------------------------------------ *)
+(* the boolean monitor spec_okb_http: what it means (soundness) and that the model passes it   *)
+(* ------------------------------------------------------------------------------------------ *)
+Definition doc_ok (st nd : N) : Prop := (nd <= 1)%N /\ (st = 200%N -> nd = 1%N).
+Definition doc_okb (st nd : N) : bool := (nd <=? 1)%N && (if N.eqb st 200 then N.eqb nd 1 else true).
+
+Lemma doc_okb_spec st nd : doc_okb st nd = true <-> doc_ok st nd.
+Proof.
+  unfold doc_okb, doc_ok. rewrite andb_true_iff, N.leb_le. destruct (N.eqb st 200) eqn:E.
+  - apply N.eqb_eq in E. rewrite N.eqb_eq. tauto.
+  - apply N.eqb_neq in E. tauto.
+Qed.
+
+Definition answered_err (h : rhandler) (e : renv) (o : robs) : Prop :=
+  (400 <= ro_status o)%N \/ (is_stream h e = true /\ ro_serr o = true).
+Definition answered_errb (h : rhandler) (e : renv) (o : robs) : bool :=
+  (400 <=? ro_status o)%N || (is_stream h e && ro_serr o).
+Lemma answered_errb_spec h e o : answered_errb h e o = true <-> answered_err h e o.
+Proof. unfold answered_errb, answered_err. rewrite orb_true_iff, andb_true_iff, N.leb_le. tauto. Qed.
+
+Definition unrouted (rq : rreq) : Prop :=
+  forall h vars, resolve true route_spec (rr_meth rq) (segments (rr_path rq)) false <> MFull h vars.
+
+(* the property, for one request / environment / observation (status, calls received, documents in the body) *)
+Inductive HttpSpec (rq : rreq) (e : renv) (o : robs) : Prop :=
+| HS_unauth : ~ listed_pair e -> ro_status o = 401%N -> ro_calls o = [] -> (ro_ndocs o <= 1)%N -> HttpSpec rq e o
+| HS_early : listed_pair e -> (rr_preflight rq = true \/ re_redirect e = true) -> ro_calls o = [] -> HttpSpec rq e o
+| HS_slash : listed_pair e -> unrouted rq ->
+    resolve true route_spec (rr_meth rq) (segments (rr_path rq)) false = MRedirect -> ro_calls o = [] -> HttpSpec rq e o
+| HS_unmatched : listed_pair e -> unrouted rq -> ro_calls o = [] ->
+    (400 <= ro_status o < 500)%N -> doc_ok (ro_status o) (ro_ndocs o) -> HttpSpec rq e o
+| HS_refused h vars : routed rq e h vars -> malformed h vars e ->
+    (400 <= ro_status o < 500)%N -> ro_calls o = [] -> doc_ok (ro_status o) (ro_ndocs o) -> HttpSpec rq e o
+| HS_ops h vars exp : routed rq e h vars -> ~ malformed h vars e -> spec_expect h vars (rr_query rq) e = Ops exp ->
+    performed (ro_calls o) exp ->
+    (~ answered_err h e o -> ro_calls o = ok_calls exp) ->
+    (answered_err h e o -> any_failed (ro_calls o) = true \/ imp_failed h e = true) ->
+    ((400 <= ro_status o < 500)%N -> any_failed (ro_calls o) = true \/ ro_calls o = []) ->
+    ((is_stream h e = true /\ ~ (400 <= ro_status o < 500)%N) \/ doc_ok (ro_status o) (ro_ndocs o)) -> HttpSpec rq e o.
+
+Lemma if_nil_true (c : bool) (k : N) : (if c then [] else [k]) = [] -> c = true.
+Proof. destruct c; [reflexivity | discriminate]. Qed.
+Lemma if_nil_false (c : bool) (k : N) : (if c then [k] else []) = [] -> c = false.
+Proof. destruct c; [discriminate | reflexivity]. Qed.
+
+Lemma spec_okb_http_sound rq e o : spec_okb_http rq e o = true -> HttpSpec rq e o.
+Proof.
+  unfold spec_okb_http. rewrite is_nil_true. unfold spec_codes_http.
+  destruct (authorized e) eqn:Ha; cbn [negb].
+  2:{ intros H. apply if_nil_true in H. apply andb_prop in H as [H H3]. apply andb_prop in H as [H1 H2].
+      apply HS_unauth.
+      - rewrite <- authorized_spec. rewrite Ha. discriminate.
+      - apply N.eqb_eq; exact H1.
+      - apply is_nil_true; exact H2.
+      - apply N.leb_le; exact H3. }
+  assert (Hl : listed_pair e) by (apply authorized_spec; exact Ha).
+  destruct (rr_preflight rq || re_redirect e) eqn:Hpr.
+  { intros H. apply if_nil_true in H. apply orb_prop in Hpr. apply HS_early; [exact Hl | exact Hpr | apply is_nil_true; exact H]. }
+  apply orb_false_elim in Hpr as [Hp Hd]. cbv zeta.
+  fold (doc_okb (ro_status o) (ro_ndocs o)).
+  destruct (resolve true route_spec (rr_meth rq) (segments (rr_path rq)) false) as [h vars| | |] eqn:Hm.
+  - (* routed *)
+    assert (Hr : routed rq e h vars) by (repeat split; assumption).
+    destruct (spec_expect h vars (rr_query rq) e) as [|exp] eqn:E.
+    + intros H. apply app_eq_nil in H as [H1 H2]. apply if_nil_true in H1. apply if_nil_true in H2.
+      apply andb_prop in H1 as [H1 H1']. apply HS_refused with (h := h) (vars := vars).
+      * exact Hr.
+      * apply (refuse_iff_malformed h vars (rr_query rq) e). exact E.
+      * apply is4xx_spec; exact H1.
+      * apply is_nil_true; exact H1'.
+      * apply doc_okb_spec; exact H2.
+    + fold (is_stream h e). fold (imp_failed h e). fold (answered_errb h e o).
+      intros H. apply app_eq_nil in H as [H1 H]. apply app_eq_nil in H as [H2 H]. apply app_eq_nil in H as [H3 H4].
+      apply if_nil_false in H1.
+      apply HS_ops with (h := h) (vars := vars) (exp := exp).
+      * exact Hr.
+      * intros Hmal. apply (refuse_iff_malformed h vars (rr_query rq) e) in Hmal. congruence.
+      * exact E.
+      * destruct (answered_errb h e o) eqn:Ae.
+        -- apply if_nil_true in H2. apply prefix_ops_performed; exact H2.
+        -- apply if_nil_true in H2. apply rcalls_eqb_eq in H2. rewrite H2.
+           apply prefix_ops_performed. clear. induction exp as [|[m a] exp IH]; cbn; [reflexivity|].
+           rewrite String.eqb_refl, strs_eqb_refl. exact IH.
+      * intros Hn. destruct (answered_errb h e o) eqn:Ae.
+        -- exfalso. apply Hn. apply answered_errb_spec. exact Ae.
+        -- apply if_nil_true in H2. apply rcalls_eqb_eq. exact H2.
+      * intros Hy. apply answered_errb_spec in Hy. rewrite Hy in H3. cbn [andb] in H3.
+        destruct (any_failed (ro_calls o)); [left; reflexivity|]. destruct (imp_failed h e); [right; reflexivity|].
+        cbn in H3. destruct (is4xx (ro_status o)); discriminate.
+      * intros H4x. apply is4xx_spec in H4x. rewrite H4x in H1. cbn [andb] in H1.
+        destruct (any_failed (ro_calls o)); [left; reflexivity|]. cbn in H1. right. apply is_nil_true. apply negb_false_iff. exact H1.
+      * destruct (is_stream h e && negb (is4xx (ro_status o))) eqn:Es.
+        -- apply andb_prop in Es as [Es1 Es2]. left. split; [exact Es1|]. apply negb_true_iff in Es2. rewrite <- is4xx_spec. rewrite Es2. discriminate.
+        -- right. apply if_nil_true in H4. apply doc_okb_spec. exact H4.
+  - intros H. apply if_nil_true in H. apply HS_slash; [exact Hl | intros h vars; congruence | exact Hm | apply is_nil_true; exact H].
+  - intros H. apply app_eq_nil in H as [H1 H2]. apply if_nil_true in H1. apply if_nil_true in H2. apply andb_prop in H1 as [H1 H1'].
+    apply HS_unmatched; [exact Hl | intros h vars; congruence | apply is_nil_true; exact H1' | apply is4xx_spec; exact H1 | apply doc_okb_spec; exact H2].
+  - intros H. apply app_eq_nil in H as [H1 H2]. apply if_nil_true in H1. apply if_nil_true in H2. apply andb_prop in H1 as [H1 H1'].
+    apply HS_unmatched; [exact Hl | intros h vars; congruence | apply is_nil_true; exact H1' | apply is4xx_spec; exact H1 | apply doc_okb_spec; exact H2].
+Qed.
+
+(* the model's own output as an observation; d = the document count where the model leaves it unstated (301 pages, NDJSON) *)
+Definition robs_of (d : N) (r : rres) : robs :=
+  mk_robs (rs_calls r) (rs_status r) (match rs_ndocs r with Some n => n | None => d end) (rs_serr r).
+
+Lemma ops_codes_nil (PO F E4 L5 SE ST NL LE IM : bool) (k1 k2 k3 k4 : N) :
+  PO && (if E4 || SE then F || (IM && NL) else LE) && (if F then E4 || SE else true) && (if SE then ST else true)
+     && (if E4 && L5 then F else true) = true ->
+  (if E4 && L5 && negb F && negb NL then [k1] else [])
+  ++ (if E4 || (ST && SE) then (if PO then [] else [k2]) else (if LE then [] else [k2]))
+  ++ (if (E4 || (ST && SE)) && negb F && negb IM then [if E4 && L5 then k3 else k4] else []) = [].
+Proof. destruct PO, F, E4, L5, SE, ST, NL, LE, IM; cbn; intros H; try discriminate; reflexivity. Qed.
+
+Lemma app_nil_both {A} (l l' : list A) : l = [] -> l' = [] -> l ++ l' = [].
+Proof. intros -> ->. reflexivity. Qed.
+
+Lemma model_satisfies_http rq e d : spec_okb_http rq e (robs_of d (rest_run rq e)) = true.
+Proof.
+  unfold spec_okb_http. apply is_nil_true. unfold spec_codes_http.
+  destruct (authorized e) eqn:Ha; cbn [negb].
+  2:{ rewrite rest_run_unfold. unfold rest_run_with. rewrite Ha. cbn [negb]. unfold strip_head.
+      destruct (String.eqb (rr_meth rq) "HEAD"); reflexivity. }
+  destruct (rr_preflight rq) eqn:Hp; cbn [orb].
+  { rewrite rest_run_unfold. unfold rest_run_with. rewrite Ha, Hp. cbn [negb]. unfold strip_head.
+    destruct (String.eqb (rr_meth rq) "HEAD"); reflexivity. }
+  destruct (re_redirect e) eqn:Hd.
+  { rewrite rest_run_unfold. unfold rest_run_with. rewrite Ha, Hp, Hd. cbn [negb]. unfold strip_head.
+    destruct (String.eqb (rr_meth rq) "HEAD"); reflexivity. }
+  cbv zeta.
+  destruct (resolve true route_spec (rr_meth rq) (segments (rr_path rq)) false) as [h vars| | |] eqn:Hm.
+  - assert (Hr : routed rq e h vars) by (repeat split; assumption).
+    rewrite (rest_run_routed _ _ _ _ Hr).
+    destruct (spec_expect h vars (rr_query rq) e) as [|exp] eqn:E.
+    + rewrite (handle_refuse _ _ _ _ (routed_known _ _ _ _ Hr) E). reflexivity.
+    + pose proof (handle_ops_b _ _ _ _ _ E) as Hb. set (r := handle h vars (rr_query rq) e) in *.
+      fold (is_stream h e). fold (imp_failed h e).
+      unfold ops_okb in Hb.
+      apply andb_prop in Hb as [Hb H7]. apply andb_prop in Hb as [Hb H6].
+      cbn [robs_of ro_calls ro_status ro_ndocs ro_serr].
+      rewrite !app_assoc. apply app_nil_both.
+      * rewrite <- !app_assoc. unfold is4xx. apply ops_codes_nil.
+        unfold errb, is4xx in Hb.
+        apply andb_prop in Hb as [Hb H5]. apply andb_prop in Hb as [Hb H4]. apply andb_prop in Hb as [Hb H3]. apply andb_prop in Hb as [H1 H2].
+        rewrite H1, H2, H3, H5. cbn [andb]. rewrite andb_true_r.
+        destruct (rs_serr r); [|reflexivity]. apply andb_prop in H4 as [H4 _]. exact H4.
+      * destruct (rs_ndocs r) as [[|p]|].
+        -- apply N.eqb_eq in H6. rewrite H6. destruct (is_stream h e && negb (is4xx 204)); reflexivity.
+        -- destruct p; try discriminate. destruct (is_stream h e && negb (is4xx (rs_status r))); [reflexivity|].
+           cbn. destruct (N.eqb (rs_status r) 200); reflexivity.
+        -- apply andb_prop in H6 as [H6 H6']. apply N.eqb_eq in H6'. rewrite H6, H6'. reflexivity.
+  - rewrite rest_run_unfold. unfold rest_run_with. rewrite Ha, Hp, Hd, Hm. cbn [negb]. unfold strip_head.
+    destruct (String.eqb (rr_meth rq) "HEAD"); reflexivity.
+  - rewrite rest_run_unfold. unfold rest_run_with. rewrite Ha, Hp, Hd, Hm. cbn [negb]. unfold strip_head.
+    destruct (String.eqb (rr_meth rq) "HEAD"); reflexivity.
+  - rewrite rest_run_unfold. unfold rest_run_with. rewrite Ha, Hp, Hd, Hm. cbn [negb]. unfold strip_head.
+    destruct (String.eqb (rr_meth rq) "HEAD"); reflexivity.
+Qed.
+
+(* so: whenever an observation of the implementation equals the model's output, the property holds of it *)
+Lemma model_spec_http rq e d : HttpSpec rq e (robs_of d (rest_run rq e)).
+Proof. apply spec_okb_http_sound. apply model_satisfies_http. Qed.
